@@ -353,6 +353,30 @@ pub fn observe(analysis: &EmmyLuaAnalysis, root: &Path, opts: &ObserveOpts) -> O
     }
     gs.sort();
     lines.extend(gs);
+    // ---- references to every global name, across files
+    let mut names: Vec<String> = db
+        .get_global_index()
+        .get_all_global_decl_ids()
+        .iter()
+        .filter_map(|id| db.get_decl_index().get_decl(id).map(|d| d.get_name().to_string()))
+        .collect();
+    names.sort();
+    names.dedup();
+    for name in names {
+        if let Some(refs) = db.get_reference_index().get_global_references(&name) {
+            let mut rs: Vec<String> = refs
+                .iter()
+                .map(|r| {
+                    if db.get_vfs().get_file_content(&r.file_id).is_none() {
+                        dangling.push(format!("global-reference to {name} in {}", rel_of(db, root, r.file_id)));
+                    }
+                    format!("{}:{}", rel_of(db, root, r.file_id), u32::from(r.value.get_range().start()))
+                })
+                .collect();
+            rs.sort();
+            lines.push(format!("grefs {name} :: [{}]", rs.join(",")));
+        }
+    }
 
     // ---- module resolution of given require strings
     for r in &opts.requires {
